@@ -3,13 +3,14 @@ C17 — The recommendation report shows exactly the filter's result.
 
 Theorems about the STRUCTURED report of Model/Report.lean (`body`, `summary`, `stdoutSelection`),
 for every input (assessed list, hidden sets, records, strategies). The harness parses the real
-Markdown back into this structure.
+Markdown back into this structure. Last section: the TEXT of the Location cell (Model/ReportCell.lean).
 -/
 import Paroxy.Proofs.Report
 import Paroxy.Proofs.ReportOrder
 import Paroxy.Proofs.Recommend
+import Paroxy.Proofs.ReportCell
 namespace Paroxy.Props.C17
-open Paroxy Paroxy.Filter Paroxy.Costs Paroxy.Report
+open Paroxy Paroxy.Filter Paroxy.Costs Paroxy.Report Paroxy.ReportCell
 
 /-- **Membership.** The report lists each assessed (= selected), non-hidden program exactly once
 and no other program: the listed `(cost, path)` pairs are a permutation of the visible ones. -/
@@ -286,5 +287,74 @@ example (c : Ctx) (r : Relations) (strat : Strategy) (sloc : Codes → Nat) (sor
     ∃ rep, recommend c r strat sloc sorting grouping [] = .ok rep ∧ rep.final = initState c.programs :=
   let ⟨rep, h1, h2, _⟩ := C17_report_total c r strat sloc sorting grouping [] (initState c.programs) [] rfl
   ⟨rep, h1, h2⟩
+
+/-! ### The text of the Location cell (Model/ReportCell.lean: `couple_to_string`, `", ".join`,
+`enumeration_to_txt_factory(width, "_imported_")` with its `textwrap.wrap`) -/
+
+/-- **The Location cell loses nothing.** For every column width ≥ 1 and every list of spans of natural
+numbers (any length, any magnitudes — numbers longer than the column, which `textwrap` cuts in the
+middle or after their hyphen, included), reading the rendered cell back (`parseCell`: delete the tags,
+split on commas and spaces, read `a` / `a-b`) gives exactly the spans of the row.
+(With a reader that takes `<br>` for a separator the statement is false for numbers longer than the
+line: see the example `12345678901` below; `parseCell` therefore deletes `<br>`.) -/
+theorem C17_cell_roundtrip (width : Nat) (hw : 0 < width) (spans : List Span)
+    (hn : ∀ sp ∈ spans, 0 ≤ sp.1 ∧ 0 ≤ sp.2) : parseCell (renderCell width spans) = some spans := by
+  rw [← toSpan_of_nonneg spans hn]
+  exact parse_render width hw _
+
+/-- The empty span list (an imported taxon) is rendered `_imported_`, for every width … -/
+theorem C17_cell_imported (width : Nat) : renderCell width [] = "_imported_".toList := rfl
+
+/-- … and no other list is: a row with spans never reads `_imported_`. -/
+theorem C17_cell_not_imported (width : Nat) (spans : List Span) (hne : spans ≠ [])
+    (hn : ∀ sp ∈ spans, 0 ≤ sp.1 ∧ 0 ≤ sp.2) : renderCell width spans ≠ "_imported_".toList := by
+  rw [← toSpan_of_nonneg spans hn]
+  cases h : spans.map fun sp => (sp.1.toNat, sp.2.toNat) with
+  | nil => simp at h; exact absurd h hne
+  | cons p t => exact render_ne_imported width p t
+
+/-- **Wrapping only deletes spaces and cuts lines.** For every width ≥ 1 and every text that does not
+start with a space, the contents of the lines of `textwrap.wrap(s, width, initial_indent="   ")`, put
+end to end, are `s` with some spaces deleted (`SpDel`): no other character is lost, added or moved —
+long-word cuts included. -/
+theorem C17_cell_wrap_keeps_text (width : Nat) (hw : 0 < width) (s : Str) (h : ∀ x t, s = x :: t → x ≠ ' ') :
+    SpDel s (wrapContents width 3 s).flatten :=
+  wrapContents_spdel width 3 hw s h
+
+/-- FULL STATEMENT, not proved (exercised by the harness stream `cell`, key `unwrap`): when no chunk of
+the enumeration is longer than the first line (`width - 3`), wrapping replaces single spaces by line
+breaks and does nothing else — the lines joined by one space are the enumeration.
+Missing: the description of `fill` on an alternating word / space chunk list (no long-word cut then
+happens; each line ends before a space, which is the only thing dropped). What IS proved for every
+width, long words included, is `C17_cell_wrap_keeps_text` (only spaces are deleted) and, through it,
+`C17_cell_roundtrip`. Without the hypothesis the statement is false: see the example below. -/
+def C17_cell_unwrap_statement : Prop :=
+  ∀ (width : Nat) (spans : List Span), (∀ sp ∈ spans, 0 ≤ sp.1 ∧ 0 ≤ sp.2) →
+    chunksWithin (width - 3) (joinSpans spans) = true →
+    unwrap (wrapContents width 3 (joinSpans spans)) = joinSpans spans
+
+-- Non-vacuity: fourteen spans, column width 30: five lines; read back exactly; the lines joined by
+-- one space are the enumeration.
+def exampleSpans : List Span :=
+  [(1, 1), (3, 17), (20, 20), (25, 140), (141, 141), (150, 1520), (1600, 1600), (1700, 1800), (2000, 2000),
+   (2100, 2101), (2200, 2200), (2300, 99999), (100000, 100000), (100001, 100002)]
+
+example : (wrapLines 30 3 (joinSpans exampleSpans)).length = 5 ∧
+    parseCell (renderCell 30 exampleSpans) = some exampleSpans ∧
+    (∀ sp ∈ exampleSpans, 0 ≤ sp.1 ∧ 0 ≤ sp.2) ∧
+    chunksWithin (30 - 3) (joinSpans exampleSpans) = true ∧
+    unwrap (wrapContents 30 3 (joinSpans exampleSpans)) = joinSpans exampleSpans := by decide +kernel
+
+example : renderCell 7 [(1, 1), (2, 2), (3, 3), (4, 4), (5, 6), (7, 7), (8, 8), (9, 9)] =
+    "<details><summary>1,</summary>2, 3,<br>4, 5-6,<br>7, 8, 9</details>".toList := by decide +kernel
+
+-- A number longer than the column is cut in the middle (width 8: first line 5 characters) or after its
+-- hyphen: the lines joined by a space are NOT the enumeration (so the hypothesis of
+-- `C17_cell_unwrap_statement` is needed, and a reader must not take `<br>` for a separator), yet the
+-- cell reads back (`C17_cell_roundtrip`).
+example : renderCell 8 [(12345678901, 12345678901)] = "<details><summary>12345</summary>678901</details>".toList ∧
+    renderCell 8 [(123, 45678901)] = "<details><summary>123-</summary>45678901</details>".toList ∧
+    unwrap (wrapContents 8 3 (joinSpans [(12345678901, 12345678901)])) ≠ joinSpans [(12345678901, 12345678901)] ∧
+    parseCell (renderCell 8 [(12345678901, 12345678901)]) = some [(12345678901, 12345678901)] := by decide +kernel
 
 end Paroxy.Props.C17
